@@ -133,7 +133,9 @@ def stockholm_text(rows, rng=None, rf=False, ss=False, name=None):
         out.append(n.ljust(w + 8) + s)
     alen = len(rows[0][1])
     if rf:
-        out.append("#=GC RF".ljust(w + 8) + "".join("x" if (rng is None or rng.random() < 0.8) else "." for _ in range(alen)))
+        rfl = "".join("x" if (rng is None or rng.random() < 0.8) else "." for _ in range(alen))
+        if "x" not in rfl: rfl = "x" + rfl[1:]            # an RF line without any consensus column is refused by the RF-based tools
+        out.append("#=GC RF".ljust(w + 8) + rfl)
     if ss:
         half = alen // 2
         k = min(half, 3) if rng is None else rng.randrange(0, half + 1)
@@ -665,11 +667,19 @@ def ref_fasta_text(rng, recs, crlf_ok=False):
     return nl.join(out) + nl
 
 
+def _with_o(rng, case, tool, args, p=0.15):
+    """with probability p send the output to a file (-o) and compare the file (cat) - stdout must then be empty"""
+    if rng.random() < p:
+        case["ops"][-1] = op_run(tool, ["-o", "out.txt"] + args)
+        case["ops"].append("cat name=out.txt")
+    return case
+
+
 def ref_seqstat(rng, i):
     recs, abc = ref_records(rng, long_ok=True)
     args = []
     if rng.random() < 0.5: args.append("-a")
-    if rng.random() < 0.5 and abc != AMINO: args.append("-c")
+    if rng.random() < 0.5: args.append("-c")
     if rng.random() < 0.25: args.append("--comptbl")
     if rng.random() < 0.3: args += ["--informat", "fasta"]
     args.append(ABCFLAG[abc])
@@ -761,9 +771,9 @@ def ref_mask(rng, i):
         return {"name": "ref-mask-%d-R" % i, "ref": True, "sticky": 3,
                 "ops": [op_file("in.fa", fasta_text(recs, rng.choice([60, 50, 11]))), op_file("mask", "\n".join(mlines) + "\n"),
                         op_run("esl-sfetch", ["--index", "in.fa"]), op_run("esl-mask", ["-R"] + args + ["in.fa", "mask"])]}
-    return {"name": "ref-mask-%d" % i, "ref": True, "sticky": 2,
+    return _with_o(rng, {"name": "ref-mask-%d" % i, "ref": True, "sticky": 2,
             "ops": [op_file("in.fa", ref_fasta_text(rng, recs)), op_file("mask", "\n".join(mlines) + "\n"),
-                    op_run("esl-mask", args + ["in.fa", "mask"])]}
+                    op_run("esl-mask", args + ["in.fa", "mask"])]}, "esl-mask", args + ["in.fa", "mask"])
 
 
 def ref_reformat(rng, i):
@@ -788,12 +798,12 @@ def ref_reformat(rng, i):
         gopt = rng.choice(["--mingap", "--nogap"])
         if any((all if gopt == "--nogap" else any)(r[2][c] not in "-_.~" for r in rows) for c in range(len(rows[0][2]))):
             args.append(gopt)         # at least one column survives
-    if rng.random() < 0.2: args += ["--rename", rng.choice(["new", "s", "x.y"])]
+    if rng.random() < 0.35: args += ["--rename", rng.choice(["new", "s", "x.y"])]
     if rng.random() < 0.25: args += ["--replace", rng.choice(["A:x", "AC:ca", "acgt:ACGT", "_:-", "N:n", "XYZ:NNN"])]
     rng.shuffle(args) if not any(a.startswith("--") for a in args) else None
     args += ["--informat", infmt, outfmt, "in.x"]
-    return {"name": "ref-reformat-%d-%s" % (i, mode), "ref": True, "sticky": 1,
-            "ops": [op_file("in.x", text), op_run("esl-reformat", args)]}
+    return _with_o(rng, {"name": "ref-reformat-%d-%s" % (i, mode), "ref": True, "sticky": 1,
+            "ops": [op_file("in.x", text), op_run("esl-reformat", args)]}, "esl-reformat", args)
 
 
 def ref_seed(rng):
@@ -816,8 +826,8 @@ def ref_shuffle(rng, i):
     if rng.random() < 0.3:     # -L: sequences shorter than L are skipped (regression: they used to leak into the next one)
         args += ["-L", str(rng.choice([1, 2, 5, 10, 60, 100]))]
     args += ["--informat", "fasta", "in.fa"]
-    return {"name": "ref-shuffle-%d" % i, "ref": True, "sticky": 1,
-            "ops": [op_file("in.fa", ref_fasta_text(rng, recs, crlf_ok=True)), op_run("esl-shuffle", args)]}
+    return _with_o(rng, {"name": "ref-shuffle-%d" % i, "ref": True, "sticky": 1,
+            "ops": [op_file("in.fa", ref_fasta_text(rng, recs, crlf_ok=True)), op_run("esl-shuffle", args)]}, "esl-shuffle", args)
 
 
 def ref_downsample(rng, i):
@@ -828,11 +838,14 @@ def ref_downsample(rng, i):
             lines[rng.randrange(nlines - 1)] = ""
         nl = "\r\n" if rng.random() < 0.15 else "\n"
         text = nl.join(lines) + (nl if lines and rng.random() < 0.85 else "")
-        m = min(nlines, rng.choice([0, 1, 2, nlines, max(0, nlines - 1), rng.randrange(0, nlines + 1)]))
+        m = min(nlines, rng.choice([0, 1, 2, nlines, nlines, max(0, nlines - 1), rng.randrange(0, nlines + 1)]))
         return {"name": "ref-downsample-%d-lines" % i, "ref": True, "sticky": 1,
                 "ops": [op_file("in.txt", text), op_run("easel", ["downsample", "--seed", ref_seed(rng), str(m), "in.txt"])]}
     recs, abc = ref_records(rng, nseq=rng.choice([1, 2, 3, 5, 10, 25]), maxlen=90)
-    m = min(len(recs), rng.choice([0, 1, 2, len(recs), rng.randrange(0, len(recs) + 1)]))
+    m = min(len(recs), rng.choice([0, 1, 2, len(recs), len(recs), max(0, len(recs) - 1), rng.randrange(0, len(recs) + 1)]))
+    if rng.random() < 0.4:      # -S: two passes over a rewindable file, sample echoed verbatim in file order
+        return {"name": "ref-downsample-%d-big" % i, "ref": True, "sticky": 1,
+                "ops": [op_file("in.fa", fasta_text(recs, rng.choice([60, 50, 9]))), op_run("easel", ["downsample", "-S", "--seed", ref_seed(rng), str(m), "in.fa"])]}
     return {"name": "ref-downsample-%d-seqs" % i, "ref": True, "sticky": 1,
             "ops": [op_file("in.fa", ref_fasta_text(rng, recs)), op_run("easel", ["downsample", "-s", "--seed", ref_seed(rng), str(m), "in.fa"])]}
 
@@ -869,6 +882,8 @@ def ref_sfetch(rng, i):
             lines.append("sub%d %d %d %s" % (k, a, b, name))
         ops.append(op_file("gdf", "\n".join(lines) + "\n"))
         args = (["-r"] if rng.random() < 0.5 else []) + ["-C", "-f", "in.fa", "gdf"]
+    if rng.random() < 0.2:
+        args = ["--informat", "fasta"] + args
     # output to a file: -o <f> (any mode) or -O (single fetch; file named after the key) - stdout then only carries a note
     outname = None
     w = rng.random()
@@ -939,14 +954,73 @@ def ref_alistat(rng, i):
     if rng.random() < 0.12:       # many rows: the average identity is then a seeded stochastic sample (N(N-1)/2 > 1000)
         base, _ = gen_msa(rng, abc=abc, nseq=rng.choice([45, 46, 60]), alen=rng.choice([5, 12, 30]))
         rows = [(n, "", s) for n, s in base]
-    which = rng.choice(["esl", "esl1", "easel"])
+    which = rng.choice(["esl", "esl1", "easel", "easel1"])
     text = ref_fasta_text(rng, rows)
-    if which == "easel":
-        return {"name": "ref-alistat-%d-easel" % i, "ref": True, "sticky": 1,
-                "ops": [op_file("in.afa", text), op_run("easel", ["alistat", ABCFLAG[abc], "in.afa"])]}
+    if which in ("easel", "easel1"):
+        return {"name": "ref-alistat-%d-%s" % (i, which), "ref": True, "sticky": 1,
+                "ops": [op_file("in.afa", text), op_run("easel", ["alistat"] + (["-1"] if which == "easel1" else []) + [ABCFLAG[abc], "in.afa"])]}
     args = (["-1"] if which == "esl1" else []) + ["--informat", "afa", ABCFLAG[abc], "in.afa"]
     return {"name": "ref-alistat-%d-%s" % (i, which), "ref": True, "sticky": 1,
             "ops": [op_file("in.afa", text), op_run("esl-alistat", args)]}
+
+
+def ref_small(rng, i):
+    """esl-reformat --small (Pfam in, afa/pfam out without building an ESL_MSA) must print what the normal mode prints,
+    with every residue-conversion option; likewise esl-alimask --small and esl-alimanip --small (--seq-k/--seq-r)"""
+    abc = rng.choice([DNA, "ACGU", AMINO])
+    rows, _ = gen_msa(rng, abc=abc, nseq=rng.choice([1, 2, 3, 6]))
+    rows = [("%s%d" % (rng.choice(["s", "seq", "x_"]), k + 1), s) for k, (n, s) in enumerate(rows)]
+    if rng.random() < 0.4:
+        rows = [(n, "".join(c.lower() if rng.random() < 0.2 else c for c in s_)) for n, s_ in rows]
+    text = stockholm_text(rows, rng, rf=rng.random() < 0.5, ss=False, name=rng.choice([None, "aln1"]))
+    which = rng.choice(["reformat", "reformat", "alimask", "alimanip"])
+    if which == "reformat":
+        opts = []
+        for a, b in (("-d", "-r"), ("-l", "-u"), ("-n", "-x")):
+            w = rng.random()
+            if w < 0.25: opts.append(a)
+            elif w < 0.5: opts.append(b)
+        if rng.random() < 0.3: opts += ["--gapsym", rng.choice([".", "_", "x"])]
+        if rng.random() < 0.3: opts += ["--rename", "nn"]
+        if rng.random() < 0.2: opts += ["--replace", rng.choice(["A:x", "AC:ca"])]
+        tail = ["--informat", "pfam", "afa", "in.sto"]
+        a1, a2, tool = opts + tail, ["--small"] + opts + tail, "esl-reformat"
+    elif which == "alimask":
+        alen = len(rows[0][1]); a = rng.randrange(1, alen + 1); b = rng.randrange(a, alen + 1)
+        base = ["-t", "--informat", "pfam", ABCFLAG[abc], "in.sto", "%d-%d" % (a, b)]
+        a1, a2, tool = base, ["--small"] + base, "esl-alimask"
+    else:
+        names = [n for n, _ in rows]; sel = [n for n in names if rng.random() < 0.5] or [names[0]]
+        if len(sel) == len(names) and len(names) > 1: sel = sel[:-1]
+        opt = rng.choice(["--seq-k", "--seq-r"])
+        if opt == "--seq-r" and len(sel) == len(names): opt = "--seq-k"
+        base = [opt, "list", "--informat", "pfam", ABCFLAG[abc], "in.sto"]
+        a1, a2, tool = base, ["--small"] + base, "esl-alimanip"
+        return {"name": "ref-small-%d-%s" % (i, which), "ref": True, "nopred_ok": True, "sticky": 1, "same_out": True,
+                "ops": [op_file("in.sto", text), op_file("list", "\n".join(sel) + "\n"), op_run(tool, a1), op_run(tool, a2)]}
+    return {"name": "ref-small-%d-%s" % (i, which), "ref": True, "nopred_ok": True, "sticky": 1, "same_out": True,
+            "ops": [op_file("in.sto", text), op_run(tool, a1), op_run(tool, a2)]}
+
+
+def ref_afetch_multi(rng, i):
+    """esl-afetch -f <msafile> <namefile>: the named alignments, each converted through the tool to afa is not possible for a
+    multi-record output, so the monitor checks the #=GF ID lines (all requested, none else; key order with an SSI index, file order
+    without) and that every record is complete"""
+    nali = rng.choice([2, 3, 5, 7])
+    names = ["%s%d" % (rng.choice(["aln", "fam_", "PF000"]), k + 1) for k in range(nali)]
+    text = ""
+    for nm in names:
+        rows, _ = gen_msa(rng, nseq=rng.choice([1, 2, 4]))
+        text += stockholm_text(rows, rng, rf=rng.random() < 0.3, ss=False, name=nm)
+    want = [n for n in names if rng.random() < 0.5] or [names[-1]]
+    rng.shuffle(want)
+    indexed = rng.random() < 0.5
+    ops = [op_file("in.sto", text), op_file("names", "\n".join(want) + "\n")]
+    if indexed:
+        ops.append(op_run("esl-afetch", ["--index", "in.sto"]))
+    ops.append(op_run("esl-afetch", ["-f", "in.sto", "names"]))
+    expect = want if indexed else [n for n in names if n in want]
+    return {"name": "ref-afetchmulti-%d" % i, "ref": True, "nopred_ok": True, "sticky": 1, "expect_ids": expect, "ops": ops}
 
 
 RT_FORMATS = ["stockholm", "pfam", "clustal", "clustallike", "phylip", "phylips", "selex"]   # psiblast and a2m re-case insert columns: not an identity
@@ -994,10 +1068,15 @@ def ref_weight(rng, i):
     elif w < 0.55:
         args.append("-b")
         if rng.random() < 0.6: args += ["--id", rng.choice(["0.62", "0.5", "0.9", "1.0", "0.25", "0"])]
-    elif w < 0.75: args.append("-g")
+    elif w < 0.7: args.append("-g")
+    elif w < 0.85:
+        args.append("-f")
+        if rng.random() < 0.7: args += ["--idf", rng.choice(["0.8", "0.5", "0.9", "1.0", "0.62", "0.25"])]
+        if len(rows) > 2 and rng.random() < 0.5:
+            rows[2] = (rows[2][0], rows[2][1], rows[0][2])
     args += ["--informat", "afa", ABCFLAG[abc], "in.afa"]
-    return {"name": "ref-weight-%d" % i, "ref": True, "sticky": 1,
-            "ops": [op_file("in.afa", ref_fasta_text(rng, rows)), op_run("esl-weight", args)]}
+    return _with_o(rng, {"name": "ref-weight-%d" % i, "ref": True, "sticky": 1,
+            "ops": [op_file("in.afa", ref_fasta_text(rng, rows)), op_run("esl-weight", args)]}, "esl-weight", args)
 
 
 def ref_filter(rng, i):
@@ -1012,8 +1091,10 @@ def ref_filter(rng, i):
 
 def ref_index(rng, i):
     recs, abc = ref_records(rng, nseq=rng.choice([1, 2, 5, 11]), maxlen=100)
+    name = rng.choice(recs)[0]
     return {"name": "ref-index-%d" % i, "ref": True, "sticky": 1,
-            "ops": [op_file("in.fa", fasta_text(recs, rng.choice([60, 50, 7]))), op_run("easel", ["index", "in.fa"])]}
+            "ops": [op_file("in.fa", fasta_text(recs, rng.choice([60, 50, 7]))), op_run("easel", ["index", "in.fa"]),
+                    op_run("esl-sfetch", ["in.fa", name])]}      # the index just written must be usable
 
 
 def _sto_rows(rng, rf=True):
@@ -1088,7 +1169,7 @@ def ref_alimanip(rng, i):
     return {"name": "ref-alimanip-%d" % i, "ref": True, "nopred_ok": True, "sticky": 1, "roundtrip": want, "ops": ops}
 
 
-REF_GENERATORS = [("esl-alimask", ref_alimask), ("esl-alimanip", ref_alimanip), ("easel index", ref_index), ("easel filter", ref_filter), ("esl-weight", ref_weight), ("esl-afetch", ref_afetch), ("roundtrip", ref_roundtrip), ("esl-alistat", ref_alistat), ("esl-translate", ref_translate), ("esl-sfetch", ref_sfetch), ("esl-seqstat", ref_seqstat), ("esl-alirev", ref_alirev), ("esl-alipid", ref_alipid),
+REF_GENERATORS = [("small modes", ref_small), ("esl-afetch -f", ref_afetch_multi), ("esl-alimask", ref_alimask), ("esl-alimanip", ref_alimanip), ("easel index", ref_index), ("easel filter", ref_filter), ("esl-weight", ref_weight), ("esl-afetch", ref_afetch), ("roundtrip", ref_roundtrip), ("esl-alistat", ref_alistat), ("esl-translate", ref_translate), ("esl-sfetch", ref_sfetch), ("esl-seqstat", ref_seqstat), ("esl-alirev", ref_alirev), ("esl-alipid", ref_alipid),
                   ("esl-seqrange", ref_seqrange), ("esl-selectn", ref_selectn), ("esl-mask", ref_mask),
                   ("esl-reformat", ref_reformat), ("esl-shuffle", ref_shuffle), ("easel downsample", ref_downsample)]
 
@@ -1127,6 +1208,9 @@ def corpus_cases(ctx):
                  op_file("gdf", "a 3 20 seq1\nb 20 3 seq1\nc 16 1 p2\nd 5 5 p2\ne 7 0 seq1\n"),
                  op_run("esl-sfetch", ["--index", "db.fa"]), op_run("esl-sfetch", ["-r", "-C", "-f", "db.fa", "gdf"]),
                  op_run("esl-sfetch", ["-C", "-f", "db.fa", "gdf"])]},
+        # esl-reformat --small closes the alignment file twice (known finding until the double-close fix lands)
+        {"name": "corpus-reformat-small", "ops": [op_file("p.sto", "# STOCKHOLM 1.0\n\ns1  ACGU\ns2  AC-U\n//\n"),
+                                                  op_run("esl-reformat", ["--small", "--informat", "pfam", "afa", "p.sto"])]},
         # top level of the `easel` driver and of esl-mixdchlet (esl_subcmd.c dispatch)
         {"name": "corpus-easel-h", "expect_ok": True, "ops": [op_run("easel", ["-h"])]},
         {"name": "corpus-easel-help", "expect_ok": True, "ops": [op_run("easel", ["--help"])]},
@@ -1140,6 +1224,41 @@ def corpus_cases(ctx):
         {"name": "corpus-translate-short", "ref": True, "sticky": 1,
          "ops": [op_file("in.fa", ">a\nCC\n>b a desc\nATTG\n"), op_run("esl-translate", ["-l", "0", "-m", "--crick", "--informat", "fasta", "in.fa"])]},
     ]
+    # invalid arguments on valid files: a non-zero exit status with a diagnostic is REQUIRED (a tool that silently
+    # accepts them and prints something is as wrong as one that dies)
+    afa = ">s1\nACGTACGTAA\n>s2\nACGTAC-TAA\n>s3\nTTGTACGTCA\n"
+    sto = "# STOCKHOLM 1.0\n#=GF ID aln1\n\ns1  ACGU\ns2  AC-U\n//\n"
+    three = "l1\nl2\nl3\n"
+    def bad(name, files, *runs, known=None):
+        c = {"name": "corpus-reject-" + name, "expect_err": True, "ops": [op_file(n, t) for n, t in files] + list(runs)}
+        if known: c["known_key"] = known
+        out.append(c)
+    bad("filter-maxid-high", [("a.afa", afa)], op_run("easel", ["filter", "--informat", "afa", "--dna", "2.0", "a.afa"]))
+    bad("filter-maxid-neg", [("a.afa", afa)], op_run("easel", ["filter", "--informat", "afa", "--dna", "-0.1", "a.afa"]))
+    bad("seqrange-idx-gt-nproc", [("a.fa", fa)], op_run("esl-sfetch", ["--index", "a.fa"]), op_run("esl-seqrange", ["a.fa", "3", "2"]))
+    bad("seqrange-idx-0", [("a.fa", fa)], op_run("esl-sfetch", ["--index", "a.fa"]), op_run("esl-seqrange", ["a.fa", "0", "2"]))
+    bad("seqrange-nproc-gt-nseq", [("a.fa", fa)], op_run("esl-sfetch", ["--index", "a.fa"]), op_run("esl-seqrange", ["a.fa", "1", "3"]))
+    bad("seqrange-noindex", [("a.fa", fa)], op_run("esl-seqrange", ["a.fa", "1", "1"]))
+    bad("selectn-too-many", [("t", three)], op_run("esl-selectn", ["--seed", "1", "4", "t"]))
+    bad("downsample-too-many", [("t", three)], op_run("easel", ["downsample", "--seed", "1", "4", "t"]))
+    bad("downsample-s-too-many", [("a.fa", fa)], op_run("easel", ["downsample", "-s", "--seed", "1", "3", "a.fa"]))
+    bad("downsample-S-too-many", [("a.fa", fa)], op_run("easel", ["downsample", "-S", "--seed", "1", "3", "a.fa"]))
+    bad("downsample-not-int", [("t", three)], op_run("easel", ["downsample", "2x", "t"]))
+    bad("sfetch-nosuch", [("a.fa", fa)], op_run("esl-sfetch", ["--index", "a.fa"]), op_run("esl-sfetch", ["a.fa", "nosuch"]))
+    bad("sfetch-noindex", [("a.fa", fa)], op_run("esl-sfetch", ["a.fa", "s1"]))
+    bad("sfetch-r-protein", [("p.fa", ">p1\nMKVLEFPQWW\n")], op_run("esl-sfetch", ["--index", "p.fa"]), op_run("esl-sfetch", ["-r", "p.fa", "p1"]))
+    bad("afetch-nosuch", [("a.sto", sto)], op_run("esl-afetch", ["a.sto", "nosuch"]))
+    bad("mask-name-mismatch", [("a.fa", fa), ("m", "s2 1 2\n")], op_run("esl-mask", ["a.fa", "m"]))
+    bad("mask-too-many-lines", [("a.fa", fa), ("m", "s1 1 2\ns2 1 2\ns3 1 2\n")], op_run("esl-mask", ["a.fa", "m"]))
+    bad("reformat-bogus", [("a.fa", fa)], op_run("esl-reformat", ["bogus", "a.fa"]))
+    bad("reformat-two-alis-afa", [("a.sto", sto + sto.replace("aln1", "aln2"))], op_run("esl-reformat", ["afa", "a.sto"]))
+    bad("translate-bad-code", [("a.fa", fa)], op_run("esl-translate", ["-c", "7", "a.fa"]), known="C13:esl-translate:-c:unknown-table-accepted")
+    bad("alirev-protein", [("p.afa", ">p1\nMKVLEFPQWW\n>p2\nMKVLEFPQWY\n")], op_run("esl-alirev", ["--informat", "afa", "p.afa"]))
+    bad("alipid-ragged", [("r.afa", ">s1\nACGT\n>s2\nACG\n")], op_run("esl-alipid", ["--informat", "afa", "--dna", "r.afa"]))
+    for tool, nargs in (("esl-seqstat", 1), ("esl-translate", 1), ("esl-alipid", 1), ("esl-weight", 1), ("esl-selectn", 2), ("esl-mask", 2),
+                        ("esl-seqrange", 3), ("esl-reformat", 2), ("esl-alistat", 1), ("esl-alirev", 1)):
+        bad("argcount-%s-less" % tool, [("a.fa", fa)], op_run(tool, ["a.fa"] * (nargs - 1)))
+        bad("argcount-%s-more" % tool, [("a.fa", fa)], op_run(tool, ["a.fa"] * (nargs + 1)))
     # every entry point must print its help (option table walk: esl_opt_DisplayHelp) and exit 0
     for tool in ENTRY_POINTS + ["esl-mixdchlet fit", "esl-mixdchlet score", "esl-mixdchlet gen", "esl-mixdchlet sample"]:
         out.append({"name": "corpus-help-" + tool.replace(" ", "_"), "expect_ok": True, "ops": [op_run(tool, ["-h"])]})
@@ -1161,6 +1280,31 @@ def ref_monitor(ctx, case, out):
     for op, l in zip(case["ops"], out):
         if op.startswith("run ") and " class=ok " not in l:
             return None if case.get("may_fail") else _fail("reference case: tool did not succeed on a valid input: " + l[:200])
+    if case.get("same_out") and len(out) >= 2:
+        o1 = dict(w.split("=", 1) for w in out[-2].split() if "=" in w).get("out")
+        o2 = dict(w.split("=", 1) for w in out[-1].split() if "=" in w).get("out")
+
+        def _norm(h):      # the two modes pad the name column differently: compare line by line, token by token
+            try:
+                t = bytes.fromhex(h).decode("latin-1")
+                if "reformat" not in case["name"]:
+                    t = t.upper()      # esl-alimask/-alimanip digitize in normal mode (upper case), --small passes the text through
+                return [l.split() for l in t.split("\n") if l.strip()]
+            except Exception: return h
+        if o1 in (None, "-") or _norm(o1) != _norm(o2 or ""):
+            def _t(h):
+                try: return bytes.fromhex(h).decode("latin-1")[:300]
+                except Exception: return h
+            return _fail("--small mode prints something else than the normal mode (%s): normal %r small %r" % (case["name"], _t(o1 or ""), _t(o2 or "")))
+    if case.get("expect_ids") is not None and out:
+        kv = dict(w.split("=", 1) for w in out[-1].split() if "=" in w)
+        try:
+            txt = bytes.fromhex(kv.get("out", "")).decode("latin-1") if kv.get("out", "-") != "-" else ""
+        except ValueError:
+            txt = ""
+        ids = re.findall(r"^#=GF ID\s+(\S+)", txt, re.M)
+        if ids != case["expect_ids"] or txt.count("# STOCKHOLM 1.0") != len(ids) or len(re.findall(r"^//$", txt, re.M)) != len(ids):
+            return _fail("esl-afetch -f returned alignments %r, expected %r (%s)" % (ids, case["expect_ids"], case["name"]))
     if case.get("roundtrip") is not None and out:
         kv = dict(w.split("=", 1) for w in out[-1].split() if "=" in w)
         try:
